@@ -97,6 +97,7 @@ type vfSession struct {
 	tunnelConns *vfConnLog
 	stdoutMark int
 	doctor     func([]*sourceFile) []*sourceFile // rewrites the sender's records (hostile names)
+	tunnelHook func(port int, dial func() net.Conn) net.Conn // wraps the client's tunnel connector
 	tunOut      *vfWire // shadow tap: what the client wrote into its tunnel connection
 	tunIn       *vfWire // shadow tap: what the client read from its tunnel connection
 
@@ -296,11 +297,17 @@ func (s *vfSession) Start(srcPaths []string, destRoot string) {
 		s.filter = NewTrzszFilter(s.clientIn, s.clientOut, vfWriterCloser{s.cliW()}, s.cliR(), TrzszOptions{TerminalColumns: 100})
 		if cfg.Tunnel {
 			s.filter.SetTunnelConnector(func(port int) net.Conn {
-				conn, err := net.DialTimeout("tcp", fmt.Sprintf("127.0.0.1:%d", port), 2*time.Second)
-				if err != nil {
-					return nil
+				dial := func() net.Conn {
+					conn, err := net.DialTimeout("tcp", fmt.Sprintf("127.0.0.1:%d", port), 2*time.Second)
+					if err != nil {
+						return nil
+					}
+					return &vfTapConn{conn, s.tunOut, s.tunIn}
 				}
-				return &vfTapConn{conn, s.tunOut, s.tunIn}
+				if s.tunnelHook != nil {
+					return s.tunnelHook(port, dial)
+				}
+				return dial()
 			})
 			for _, r := range s.relays {
 				r.SetTunnelConnector(func(port int) net.Conn {
